@@ -31,14 +31,14 @@ def advertisedCaps (f : Fam) (_k : Kind) (tab : BasisTab) : Nat := deliverCaps f
 def evcfgMasks : List Nat := [1, 2, 3, 4, 5, 6, 7, 8, 16, 24, 32, 40, 48, 56, 17, 12, 34, 63]
 
 /-- the requested quantities of local basis function `i` (order: value grad hess ref_value ref_grad ref_hess) -/
-def cfgRow (tab : BasisTab) (x : List Rat) (slot : Nat) (be : BasisEval) (mask : Nat) : List Rat :=
+def cfgRow (tab : BasisTab) (x : List Rat) (slot : Nat) (be : BasisEval) (mask : Nat) (s : Rat := 1) : List Rat :=
   (if hasBit mask 1 then [be.value] else [])
     ++ (if hasBit mask 2 then be.grad else [])
     ++ (if hasBit mask 4 then be.hess.flatten else [])
-    ++ (if hasBit mask 8 then [evalAt x (tab.val slot)] else [])
-    ++ (if hasBit mask 16 then (List.range tab.nvars).map fun k => evalAt x (tab.grad slot k) else [])
+    ++ (if hasBit mask 8 then [s * evalAt x (tab.val slot)] else [])
+    ++ (if hasBit mask 16 then (List.range tab.nvars).map fun k => s * evalAt x (tab.grad slot k) else [])
     ++ (if hasBit mask 32 then (List.range (tab.nvars * tab.nvars)).map fun k =>
-          evalAt x ((tab.hess.getD slot []).getD k []) else [])
+          s * evalAt x ((tab.hess.getD slot []).getD k []) else [])
 
 /-- `evcfg`: projection of the full evaluation `evalCell` to the requested mask, all local basis functions -/
 def evalCellCfg (f : Fam) (m : Mesh) (c : Nat) (x : List Rat) (mask : Nat) : Option (Nat × List Rat) :=
